@@ -13,10 +13,14 @@ package app
 
 import (
 	"fmt"
+	"os"
 	"sort"
 	"strings"
+	"sync"
 	"testing"
 	"time"
+
+	"github.com/dgryski/go-wyhash"
 
 	"github.com/honeycombio/refinery/config"
 	"github.com/honeycombio/refinery/internal/verifkit"
@@ -25,35 +29,47 @@ import (
 func TestVerif_C36(t *testing.T) {
 	run := verifkit.Start(t, "C36", "shutdown")
 	defer run.Finish()
-	run.Rule("a case = one single-node Refinery (PRNG: SendDelay 2ms|30s, BatchTimeout 10ms|30s, MaxBatchSize, workers; cases 0 and 1 mod 4 are fixed to short SendDelay + quiesced with long resp. short BatchTimeout; case 2 mod 4 has 30-45 root traces, SendDelay 800ms and Stop held at the collector's Health.Unregister until the workers decided them all), 8-20 traces (with or without root span) posted in sequential batches, and a graceful shutdown requested after a PRNG-chosen number of batches (0..all), with or without first letting the collector work through its queues; the remaining batches are posted during and after the shutdown. Non-trivial when spans acknowledged with 202 before the shutdown request existed; distinct = (SendDelay, BatchTimeout, quiesced, shutdown point, kinds of traces in memory)")
+	run.Rule("a case = one single-node Refinery (PRNG: SendDelay 2ms|30s, BatchTimeout 10ms|30s, MaxBatchSize, workers; fixed strata by case index mod 6: 0/1 short SendDelay + quiesced with long/short BatchTimeout; 2 30-45 root traces, SendDelay 800ms, Stop held at the collector's Health.Unregister until the workers decided them all; 3 one to three config reloads (sample cache sizes, rules sampler, decoration toggles) confirmed per worker by sentinel traces; 4 two to four requests with half-sent bodies when shutdown is requested; 5 all PRNG), 8-20 traces (with or without root span) posted in sequential batches, and a graceful shutdown requested after a PRNG-chosen number of batches (0..all), with or without first letting the collector work through its queues; the remaining batches are posted during and after the shutdown. Non-trivial when spans acknowledged with 202 before the shutdown request existed; distinct = (SendDelay, BatchTimeout, quiesced, shutdown point, kinds of traces in memory)")
 	run.Assume("the sampler keeps every trace (DeterministicSampler rate 1), so every span acknowledged before the shutdown request belongs to a kept trace")
 	run.Assume("only spans whose 202 was received before shutdown was requested are required at Honeycomb; what is acknowledged during the shutdown is not judged")
 	run.Assume("a goroutine counts as left running when it has a frame in, or was created by, a function of a /repo package and is still there after polling the goroutine dump to a fixpoint")
 
-	run.Cases("shutdown", run.N(10, 500), func(ci int, rng *verifkit.Rand) {
+	run.Cases("shutdown", run.N(12, 504), func(ci int, rng *verifkit.Rand) {
 		sendDelay := verifkit.Pick(rng, 2*time.Millisecond, 30*time.Second)
 		batchTimeout := verifkit.Pick(rng, 10*time.Millisecond, 30*time.Second)
 		maxBatch := verifkit.Pick(rng, 1, 7, 50, 500)
 		workers := rng.Range(1, 3)
 		quiesce := rng.Bool()
 		reloadInterval := rng.Bool()
-		switch ci % 4 { // two fixed strata so that every tier has shutdowns with decided traces
-		case 0: // decided traces whose spans are still waiting in an upstream batch
+		// Fixed strata (case index mod 6), so that every tier has each kind of shutdown:
+		//  0 decided traces whose spans still wait in an upstream batch
+		//  1 decided traces already sent on
+		//  2 "window": decisions that happen *during* Stop. Every trace has a root span
+		//    and SendDelay is long enough for the whole workload to be acknowledged and
+		//    for Stop to be under way before the first decision is due; the shutdown is
+		//    then held (e2HealthGate) where InMemCollector.Stop unregisters from health
+		//    - after it closed its done channel, before it stops its workers - until the
+		//    workers have decided every trace
+		//  3 "reload": 1-3 config reloads (sample cache sizes, sampler rules, decoration
+		//    toggles) that every worker has provably processed, before the request
+		//  4 "inflight": requests whose body is half sent when shutdown is requested
+		//  5 everything PRNG-chosen
+		stratum := ci % 6
+		window, reload, inflight := stratum == 2, stratum == 3, stratum == 4
+		switch stratum {
+		case 0:
 			sendDelay, quiesce, batchTimeout = 2*time.Millisecond, true, 30*time.Second
-		case 1: // decided traces already sent on
+		case 1:
 			sendDelay, quiesce, batchTimeout = 2*time.Millisecond, true, 10*time.Millisecond
-		}
-		// Third stratum: decisions that happen *during* Stop. Every trace has a root
-		// span and SendDelay is long enough for the whole workload to be acknowledged
-		// and for Stop to be under way before the first decision is due; the shutdown
-		// is then held (e2HealthGate) where InMemCollector.Stop unregisters from
-		// health - after it closed its done channel, before it stops its workers -
-		// until the workers have decided every trace.
-		window := ci%4 == 2
-		if window {
+		case 2:
 			sendDelay, quiesce = 800*time.Millisecond, false
+		case 3:
+			sendDelay, batchTimeout = 2*time.Millisecond, 10*time.Millisecond
+		case 4:
+			sendDelay, quiesce = 2*time.Millisecond, true
 		}
-		cl, err := e2Start(e2Options{Nodes: 1, HealthGate: window, Configure: func(_ int, cfg *config.MockConfig) {
+		fmt.Fprintf(os.Stderr, "VERIF C36 seed=%d case=%d stratum=%d: starting\n", run.Seed(), ci, stratum)
+		cl, err := e2Start(e2Options{Nodes: 1, HealthGate: window || inflight, Configure: func(_ int, cfg *config.MockConfig) {
 			cfg.GetTracesConfigVal.SendDelay = config.Duration(sendDelay)
 			cfg.GetTracesConfigVal.TraceTimeout = config.Duration(verifkit.Pick(rng, 60*time.Second, 300*time.Second))
 			cfg.GetTracesConfigVal.BatchTimeout = config.Duration(batchTimeout)
@@ -119,7 +135,7 @@ func TestVerif_C36(t *testing.T) {
 		}
 		cut := verifkit.Pick(rng, 0, len(batches), rng.Intn(len(batches)+1), rng.Intn(len(batches)+1))
 		dataset := verifkit.Pick(rng, "c36", "c36 ds/x")
-		if window {
+		if window || inflight {
 			cut = len(batches)
 		}
 
@@ -139,6 +155,94 @@ func TestVerif_C36(t *testing.T) {
 				}
 			}
 		}
+		// ---- stratum "reload": config reloads that every worker has processed
+		reloads := 0
+		if reload {
+			// one root-span sentinel trace per worker (worker = wyhash(traceID, seed) % workers,
+			// restated from collect.getWorkerIDForTrace; if that ever changes the sentinels
+			// still work, they merely stop covering every worker)
+			sentinelRound := 0
+			sentinels := func() []e2Span {
+				sentinelRound++
+				var out []e2Span
+				have := map[uint64]bool{}
+				for j := 0; len(out) < workers && j < 10000; j++ {
+					tid := fmt.Sprintf("c36-%d-sentinel-%d-%d", ci, sentinelRound, j)
+					w := wyhash.Hash([]byte(tid), 7215963184435617557) % uint64(workers)
+					if have[w] {
+						continue
+					}
+					have[w] = true
+					out = append(out, e2Span{ID: tid + "/root", TraceID: tid, Time: now, Fields: map[string]any{"svc": "c36-sentinel"}})
+				}
+				return out
+			}
+			// posts one sentinel round and returns the meta.refinery.reason each was decided with
+			decideSentinels := func() ([]string, bool) {
+				sp := sentinels()
+				if res := cl.PostBatch(0, false, e2KeyA, dataset, sp); !res.AllAccepted(len(sp)) {
+					return nil, false
+				}
+				for _, x := range sp {
+					acked[x.ID] = x
+					rootAcked[x.TraceID] = true
+				}
+				reasons := map[string]string{}
+				ok := cl.WaitFor(func() bool {
+					for _, ev := range cl.Honey.Events() {
+						id := e2EventID(ev.Data)
+						if strings.Contains(id, fmt.Sprintf("c36-%d-sentinel-%d-", ci, sentinelRound)) {
+							r, _ := verifkit.AsString(ev.Data["meta.refinery.reason"])
+							reasons[id] = r
+						}
+					}
+					return len(reasons) >= len(sp)
+				})
+				var out []string
+				for _, r := range reasons {
+					out = append(out, r)
+				}
+				return out, ok
+			}
+			if _, ok := decideSentinels(); !ok { // every worker now has its sampler cached
+				run.Inconclusive("sentinel traces were not decided before the first reload")
+				return
+			}
+			nReloads := rng.Range(1, 3)
+			for k := 1; k <= nReloads; k++ {
+				rule := fmt.Sprintf("verif-c%d-r%d", ci, k)
+				kept, dropped, interval := uint(rng.Range(300, 3000)+k), uint(rng.Range(5000, 30000)+k), time.Duration(rng.Range(3, 30))*time.Second
+				hostMeta, countRoot := rng.Bool(), rng.Bool()
+				fmt.Fprintf(os.Stderr, "VERIF C36 seed=%d case=%d: reload %d\n", run.Seed(), ci, k)
+				cl.ReloadConfig(0, func(cfg *config.MockConfig) {
+					cfg.SampleCache = config.SampleCacheConfig{KeptSize: kept, DroppedSize: dropped, SizeCheckInterval: config.Duration(interval)}
+					cfg.GetSamplerTypeVal = &config.RulesBasedSamplerConfig{Rules: []*config.RulesBasedSamplerRule{{Name: rule, SampleRate: 1}}}
+					cfg.AddHostMetadataToTrace = hostMeta
+					cfg.AddSpanCountToRoot = countRoot
+				})
+				// a sentinel decided with the new rule proves that its worker cleared its
+				// samplers, i.e. took the reload signal, and (same select case, same
+				// goroutine) finished resizing its sample cache
+				done := false
+				for round := 0; round < 60 && !done; round++ {
+					reasons, ok := decideSentinels()
+					if !ok {
+						break
+					}
+					done = true
+					for _, r := range reasons {
+						if r != "rules/trace/"+rule {
+							done = false
+						}
+					}
+				}
+				if !done {
+					run.Inconclusive("the workers did not pick up reload " + rule)
+					return
+				}
+				reloads++
+			}
+		}
 		decidable := 0 // traces whose decision is due before shutdown when the collector is left to work
 		if sendDelay < time.Second {
 			decidable = len(rootAcked)
@@ -154,6 +258,30 @@ func TestVerif_C36(t *testing.T) {
 		}
 		pre := cl.Snapshot("trace_accepted", "trace_send_kept", "trace_send_dropped", "span_processed", "libhoney_upstream_queued_items", "libhoney_upstream_messages_sent")
 
+		// ---- stratum "inflight": requests whose body is half sent when shutdown is requested
+		var held []*e2HeldRequest
+		if inflight {
+			base := cl.Sum("incoming_router_batch")
+			for h := 0; h < rng.Range(2, 4); h++ {
+				var sp []e2Span
+				for k := 0; k < rng.Range(1, 3); k++ {
+					tid := fmt.Sprintf("c36-%d-held%d-%d-%s", ci, h, k, rng.Hex(8))
+					sp = append(sp, e2Span{ID: tid + "/root", TraceID: tid, Time: now, Fields: map[string]any{"svc": "c36-held", "pad": strings.Repeat("x", rng.Range(10, 400))}})
+				}
+				hr, err := cl.HoldBatch(0, e2KeyA, dataset, sp)
+				if err != nil {
+					run.Inconclusive("could not open an in-flight request: " + err.Error())
+					return
+				}
+				held = append(held, hr)
+			}
+			// every held request is inside Router.batch (the counter is incremented on entry)
+			if !cl.WaitFor(func() bool { return cl.Sum("incoming_router_batch")-base >= int64(len(held)) }) {
+				run.Inconclusive("the in-flight requests did not reach the batch handler")
+				return
+			}
+		}
+
 		// ---- shutdown, with the rest of the batches posted meanwhile
 		duringDone := make(chan struct{})
 		go func() {
@@ -166,16 +294,84 @@ func TestVerif_C36(t *testing.T) {
 			err      error
 			panicked bool
 		}
-		stopCh := make(chan stopResult, 1)
-		if window {
+		var sr stopResult
+		var srMu sync.Mutex
+		stopReturned := make(chan struct{})
+		if window || inflight {
 			cl.Nodes[0].HealthGate.Arm("collector")
 			cl.DropIdleConnections()
 		}
+		fmt.Fprintf(os.Stderr, "VERIF C36 seed=%d case=%d: requesting shutdown\n", run.Seed(), ci)
 		go func() {
 			err, p := cl.StopNode(0)
-			stopCh <- stopResult{err, p}
+			srMu.Lock()
+			sr = stopResult{err, p}
+			srMu.Unlock()
+			close(stopReturned)
 		}()
+		isClosed := func(ch <-chan struct{}) bool {
+			select {
+			case <-ch:
+				return true
+			default:
+				return false
+			}
+		}
 		windowDecisions := int64(-1)
+		heldResults := make([]e2PostResult, len(held))
+		heldState := "" // how far the shutdown had got while the requests were still incomplete
+		heldDecided := false
+		if inflight {
+			gate := cl.Nodes[0].HealthGate
+			// The requests are completed once the incoming router is provably waiting for
+			// them: its listener is closed and the stopping goroutine sits in
+			// http.Server.Shutdown called from Router.Stop (read from the goroutine dump,
+			// a synchronisation aid only). A shutdown that gets past the routers (the
+			// collector starts stopping, or Stop returns) first is what is being looked for.
+			ok := cl.WaitFor(func() bool {
+				if isClosed(stopReturned) {
+					heldState = "startstop.Stop returned"
+					return true
+				}
+				if isClosed(gate.Parked()) {
+					heldState = "InMemCollector.Stop was under way"
+					return true
+				}
+				if !cl.ListenerClosed(0) {
+					return false
+				}
+				for _, g := range e2AllGoroutines() {
+					for i := 0; i+1 < len(g.Funcs); i++ {
+						if g.Funcs[i] == "net/http.(*Server).Shutdown" && g.Funcs[i+1] == "github.com/honeycombio/refinery/route.(*Router).Stop" {
+							return true
+						}
+					}
+				}
+				return false
+			})
+			if !ok {
+				run.Inconclusive("could not tell how far the shutdown got while requests were in flight")
+			}
+			for i, h := range held {
+				heldResults[i] = h.Finish()
+			}
+			want := int64(len(rootAcked))
+			for i, h := range held {
+				if heldResults[i].AllAccepted(len(h.Spans)) {
+					want += int64(len(h.Spans))
+				}
+			}
+			select {
+			case <-gate.Parked():
+				heldDecided = cl.WaitFor(func() bool { return cl.Sum("trace_send_kept", "trace_send_dropped") >= want })
+				gate.Release()
+			case <-stopReturned:
+				gate.Release()
+			case <-time.After(e2PollBound):
+				gate.Release()
+				run.Inconclusive("Stop did not reach InMemCollector's Health.Unregister")
+			}
+		}
 		if window {
 			gate := cl.Nodes[0].HealthGate
 			select {
@@ -192,10 +388,11 @@ func TestVerif_C36(t *testing.T) {
 				run.Inconclusive("Stop did not reach InMemCollector's Health.Unregister")
 			}
 		}
-		var sr stopResult
 		select {
-		case sr = <-stopCh:
+		case <-stopReturned:
 			stopDone = true
+			srMu.Lock()
+			srMu.Unlock()
 		case <-time.After(90 * time.Second):
 			var dump []string
 			for _, g := range e2AllGoroutines() {
@@ -285,6 +482,32 @@ func TestVerif_C36(t *testing.T) {
 			c2["undecided_traces_at_stop"] = post["trace_accepted"] - post["trace_send_kept"] - post["trace_send_dropped"]
 			run.Violation("C36/collector-stop/buffered-trace-not-decided", "spans acknowledged with 202 before the shutdown request, of traces still buffered in the collector, are not at Honeycomb after Stop returned: the collector stopped without deciding its buffered traces", c2)
 		}
+		// (b') requests that were in flight when shutdown was requested
+		for i, h := range held {
+			res := heldResults[i]
+			w := e2CopyMap(ctx)
+			w["request"] = i
+			w["http_status"], w["body"] = res.HTTPStatus, res.Body
+			if res.Err != nil {
+				w["error"] = res.Err.Error()
+			}
+			if heldState != "" && res.Err == nil {
+				w["shutdown_progress"] = heldState
+				run.Violation("C36/after-stop/request-still-being-handled", "the shutdown went past the routers while a request was still in flight in a Refinery handler, and the request was answered afterwards", w)
+			}
+			accepted := res.AllAccepted(len(h.Spans))
+			for k, sp := range h.Spans {
+				ok202 := accepted || (res.Err == nil && k < len(res.Statuses) && res.Statuses[k] == 202)
+				w2 := e2CopyMap(w)
+				w2["span"] = sp.ID
+				switch {
+				case ok202 && got[sp.ID] == 0 && heldDecided:
+					run.Violation("C36/graceful-stop/acknowledged-in-flight-span-lost", "a span of a request that was in flight when shutdown was requested was acknowledged with 202, its trace was decided, and it is not at Honeycomb after Stop returned", w2)
+				case !ok202 && got[sp.ID] > 0:
+					run.Violation("C36/graceful-stop/refused-in-flight-span-forwarded", "a span of an in-flight request that was answered with an error reached Honeycomb", w2)
+				}
+			}
+		}
 		// (c) nothing is left running
 		cl.Close()
 		for _, g := range cl.LeftoverGoroutines() {
@@ -320,7 +543,7 @@ func TestVerif_C36(t *testing.T) {
 			if cut == len(batches) {
 				point = "all"
 			}
-			run.Nontrivial(fmt.Sprintf("sd=%v bt=%v q=%v at=%s buffered=%v decided=%v window>=20:%v", sendDelay, batchTimeout, quiesce, point, buffered > 0, decided > 0, windowDecisions >= 20))
+			run.Nontrivial(fmt.Sprintf("sd=%v bt=%v q=%v at=%s buffered=%v decided=%v window>=20:%v reloads=%d held=%v", sendDelay, batchTimeout, quiesce, point, buffered > 0, decided > 0, windowDecisions >= 20, reloads, len(held) > 0))
 		}
 		if ci < 2 {
 			run.Sample(ctx)
